@@ -4,6 +4,9 @@
 package main
 
 import (
+	"bytes"
+	"os"
+
 	"verifharness/smtpd"
 	"verifharness/vh"
 )
@@ -18,11 +21,42 @@ func gen(g *vh.Gen) {
 	}
 }
 
-func exec(kind string, in []string) []string {
-	if kind != "smtp" {
-		return []string{"UNKNOWN-KIND"}
+// genAsm: the ASSEMBLED server (child process: config.Process from the environment, server.FullAssembly, real SMTP
+// port) with limits and store settings an operator can combine: the memory store with a size limit (maxkb) below,
+// around and above the message limit, the file store, mailbox caps. Replies only (kind asmr): the size rule speaks
+// about what is refused and accepted; what a size-limited store keeps afterwards is C08's.
+func genAsm(g *vh.Gen) {
+	o := smtpd.Opts{Garbage: 0.02, MaxBody: 60, SizeParams: true, SmallLimit: true}
+	for i := 0; i < g.N(40, 1500); i++ {
+		c, pool := smtpd.GenCfg(g, o)
+		c.DA, c.DS = true, true
+		c.MaxBytes = g.Pick2(2000, 5000, 20000, 65536)
+		c.Store = g.Pick("mem::1", "mem::4", "mem::16", "mem:2:4", "mem", "file", "file:1")
+		o2 := o
+		o2.MaxBody = c.MaxBytes + c.MaxBytes/2
+		stream := smtpd.GenDialogue(g, c, pool, o2)
+		stream = bytes.ReplaceAll(stream, []byte("x/y"), []byte("xsy"))
+		if !bytes.HasSuffix(bytes.ToUpper(bytes.TrimRight(stream, "\r\n")), []byte("QUIT")) {
+			stream = append(stream, []byte("QUIT\r\n")...)
+		}
+		g.Emit("asmr", append(c.Fields(), vh.H(stream))...)
 	}
-	return smtpd.Exec(in)
 }
 
-func main() { vh.Main(gen, exec) }
+func exec(kind string, in []string) []string {
+	switch kind {
+	case "smtp":
+		return smtpd.Exec(in)
+	case "asmr":
+		return smtpd.ExecAsm(in)
+	}
+	return []string{"UNKNOWN-KIND"}
+}
+
+func main() {
+	if len(os.Args) > 1 && os.Args[1] == "asmchild" {
+		smtpd.AsmChild()
+		return
+	}
+	vh.Main(func(g *vh.Gen) { gen(g); genAsm(g) }, exec)
+}
